@@ -728,6 +728,9 @@ func ruleC15(c *Ctx, r *Report) {
 			detail = "no range loop over the whole --redactFieldNames list"
 		}
 	}
+	// ... and the configured list is what the user gave: --redactFieldNames reaches the list
+	// through its setter unmodified (a "normalised" prefix selects other namespaces)
+	flagWireRule(c, r, c.anchors(), "C15-R1", []flagWire{{"redactFieldNames", "SetEagerRedactionPaths", "eagerRedactionPaths"}})
 	r.Check(okMode, "C15-R1", root.Name()+":mode-definition", c.Pos(root.Pos()), "mode is true only under strings.HasPrefix(attr.ns, p), p ranging over the whole configured list", detail)
 	{
 		_, bad := rewriteBeforeReadProblems(c, root, "ns")
